@@ -5,10 +5,11 @@ import Operon.Model.Immune
 Fingerprint = 10 tokens `lenMean lenStd timeMean timeStd confMean confStd vocab struct errRate canary|none`.
 Stand-alone T cell:  `tcell rep anergy lenLo lenHi timeLo timeHi confLo confHi errMax vocabs structs canaryMin`,
   `inspect <fp>`, `check <fp>`, `flag b`, `treset`, `tresetfa`.
-Stand-alone Treg:    `treg stability (sev:cond)*`, `evaluate level action clean nviol anergic`.
+Stand-alone Treg:    `treg stability (sev:cond)*`, `evaluate level action clean nviol anergic recent`.
 Stand-alone thymus:  `tcfg min tol varThr`, `sample <fp>`, `ttrain sdLen sdTime sdConf` (installs a default T cell).
 Pipeline:            `sys minTrain tol varThr stability cap (sev:cond)*`, `reg a`, `show a <fp>|none`, `train a`,
-  `pinspect a`, `pflag a b`, `preset a`, `presetfa a`, `unrec a`.
+  `pinspect a`, `pflag a b`, `preset a`, `presetfa a`, `unrec a`, `updated a`, `expire` (two hours pass),
+  `pruneold hours`, `import (agent:vocab:struct:level:action:ageHours)*`, `reimport` (export, then import), `roundtrip` (export, `prune_old(0)`, import).
 Pipeline with the real display: `dreg a windowSize minObs`, `obs a text|brk|none|empty struct words len time conf err
   sdLen sdTime sdConf` (the three stdevs of the window after this observation), `canary a b`.
 -/
@@ -61,6 +62,7 @@ def condOf (c : String) : Response → Record → CondOut :=
   else if c = "C" then fun r _ => yn (r.level == .confirmed)
   else if c = "N" then fun r _ => yn (r.level == .noThreat)
   else if c = "A" then fun r _ => yn r.anergic
+  else if c = "U" then fun _ rec => yn rec.recent
   else if c.startsWith "K" then fun _ rec => yn (decide (natD (c.drop 1).toString ≤ rec.clean))
   else if c.startsWith "V" then fun r _ => yn (decide (natD (c.drop 1).toString ≤ r.viols.length))
   else fun _ _ => .no
@@ -115,9 +117,9 @@ def step (st : DSt) (toks : List String) : DSt × String :=
   | ["treset"] => tstep st (·.reset)
   | ["tresetfa"] => tstep st (·.resetFA)
   | "treg" :: stab :: rules => ({ st with treg := ⟨rules.map ruleOf, intD stab⟩ }, "ok")
-  | ["evaluate", lv, ac, clean, nv, an] =>
+  | ["evaluate", lv, ac, clean, nv, an, rc] =>
     let r : Response := ⟨levelOf lv, actionOf ac, .nonSelf, .absent, List.replicate (natD nv) .errorRate, boolOf an⟩
-    match st.treg.evaluate r ⟨natD clean, natD clean⟩ with
+    match st.treg.evaluate r ⟨natD clean, natD clean, boolOf rc⟩ with
     | .raise => (st, "raise:RuntimeError ## g:raise")
     | .ok s o m =>
       (st, joinSp [showBool s, showAction o, showAction m] ++ " ## " ++
@@ -209,6 +211,29 @@ def step (st : DSt) (toks : List String) : DSt × String :=
   | ["preset", a] => ({ st with sys := st.sys.resetT (natD a) false }, "ok")
   | ["presetfa", a] => ({ st with sys := st.sys.resetT (natD a) true }, "ok")
   | ["unrec", a] => ({ st with sys := st.sys.dropRecord (natD a) }, "ok")
+  | ["updated", a] => ({ st with sys := st.sys.markUpdated (natD a) }, "ok")
+  | ["expire"] => ({ st with sys := st.sys.expire }, "ok")
+  | ["pruneold", h] =>
+    let s' := st.sys.pruneOld (natD h)
+    ({ st with sys := s' }, s!"ok mem={s'.mem.sigs.length}" ++
+      (if s'.mem.sigs.length < st.sys.mem.sigs.length then " ## m:pruned-old" else " ## m:prune-kept"))
+  | "import" :: items =>
+    let now : Int := ((st.sys.clock + 1 : Nat) : Int)
+    let data : List Sig := items.filterMap fun it =>
+      match it.splitOn ":" with
+      | [a, v, sh, lv, ac, age] =>
+        some ⟨natD a, natD v, natD sh, levelOf lv, actionOf ac, 0, now - ((natD age * 3600000000 : Nat) : Int)⟩
+      | _ => none
+    let s' := st.sys.importSigs data
+    ({ st with sys := s' }, s!"ok mem={s'.mem.sigs.length}" ++
+      (if s'.mem.sigs.length < st.sys.mem.sigs.length + data.length then " ## m:import-full" else " ## m:imported"))
+  | ["roundtrip"] =>
+    -- persistence restart: export, drop everything (`prune_old(0)`), import the export
+    let s' := (st.sys.pruneOld 0).importSigs st.sys.mem.sigs
+    ({ st with sys := s' }, s!"ok mem={s'.mem.sigs.length} ## m:roundtrip")
+  | ["reimport"] =>
+    let s' := st.sys.importSigs st.sys.mem.sigs
+    ({ st with sys := s' }, s!"ok mem={s'.mem.sigs.length} ## m:reimport")
   | _ => (st, "bad-op")
 
 def main : IO Unit := runDriver ({} : DSt) step
